@@ -1,0 +1,11 @@
+//go:build verif
+
+package act
+
+// Verification exports (build tag "verif"): give the harness access to the
+// pure restart-intensity function.
+
+// VerifCheckRestartIntensity calls supCheckRestartIntensity.
+func VerifCheckRestartIntensity(restarts []int64, period int, intensity int) ([]int64, bool) {
+	return supCheckRestartIntensity(restarts, period, intensity)
+}
